@@ -271,9 +271,10 @@ std::string check_long_positions(const SearchCase &k, const Forms &f, const Occ 
     WANT(hs.find_last(lim, f.cz8, cs), cl, "find_last(limit, const char8_t*)");
     return std::string();
 }
-std::string check_long_case(const SearchCase &k, const Forms &f, const Occ &o, bool positions_only = false) {
-    // haystacks above 8 KB run a rotating selection of the overloads (a function of the case), everything else all of them
-    const unsigned rot = k.hay.size() > 8192 ? (unsigned)((k.hay.size() + 7 * k.needle.size() + 3 * k.start + k.limit + (unsigned char)k.needle[k.needle.size() / 2]) % 30) : ALL_FORMS;
+std::string check_long_case(const SearchCase &k, const Forms &f, const Occ &o, bool positions_only = false, bool every_form = false) {
+    // haystacks above 8 KB run a rotating selection of the overloads (a function of the case), everything else - and every
+    // directed replay, so that whatever an enumerator saw is seen again - all of them
+    const unsigned rot = k.hay.size() > 8192 && !every_form ? (unsigned)((k.hay.size() + 7 * k.needle.size() + 3 * k.start + k.limit + (unsigned char)k.needle[k.needle.size() / 2]) % 30) : ALL_FORMS;
     try {
         std::string why = positions_only ? check_long_positions(k, f, o, false) : check_long_mode(k, f, o, false, rot);
         if (why.empty()) why = positions_only ? check_long_positions(k, f, o, true) : check_long_mode(k, f, o, true, rot);
@@ -557,7 +558,7 @@ int run_long(verif::Reader &r, Case &c, uint8_t mode) {
     if (w.past_end) c.label("nt:prefix-runs-past-end");
     if (!o.full(true).empty() && ref::find_in(o.full(false), k.hay.size(), k.start) != ref::find_in(o.full(true), k.hay.size(), k.start)) c.label("ci-answer-differs");
     if (c.want_text) c.text = render_long(k, o);
-    std::string why = check_long_case(k, f, o);
+    std::string why = check_long_case(k, f, o, false, mode == 0xFD);
     if (!why.empty()) return c.fail(why);
     return verif::CASE_OK;
 }
